@@ -75,7 +75,7 @@ def run(tier, rep, replay=None):
         _, rj, _ = C.validate_stateful(w, "Trace_Lockstep", "Trace_Lockstep.cfg", s, max_rounds=2)
         if not rj:
             raise C.Infra("binding canary accepted")
-    rep.add(states=max(1, r0.distinct), transitions=max(1, r0.generated), traces_validated_against_impl=len(CONFIGS) * len(seeds), transcript_lines=len(merged),
+    rep.add(states=max(1, r0.distinct), transitions=max(1, r0.generated), traces_validated_against_impl=len(CONFIGS) * len(seeds), transcript_lines=len(merged), evaluations=len(merged) * len(CONFIGS), distinct_nontrivial=len({v for l in merged for v in l['outs'].values()}),
             configurations=[c[0] for c in CONFIGS], primitives=sorted({l["prim"].split("#")[0] for l in merged}), trace_states=states)
     for l in merged[:2]:
         rep.sample(l)
